@@ -5,6 +5,14 @@ import re
 from . import core
 
 PID = "C03"
+MANIFEST = dict(text="Theorems range_canonical / range_denotation / range_classification about the Gallina model of parse_range "
+             "(regex scan, spec arithmetic, sort+coalesce) hold for every header text and every size; the model is compared with "
+             "the live parse_range on an exhaustive small domain, random range sets, arbitrary text and the \\d table.",
+        note="Modelled, not verified: re.findall's scan (transcribed as a two-phase scanner), int() incl. its 4300-digit limit, "
+             "sorted(); size >= 0.",
+        technique="Coq proof (fold invariant, sortedness, interval-union extensionality) + executable model/implementation correspondence",
+        ref="5/C03")
+
 RULE = ("cases: (a) every ordered range set of <=3 specs (first-last, first-, -suffix) over a small number "
         "domain x every size of that domain (exhaustive), (b) random sets of up to 12 specs over numbers up to 1e30 "
         "with varied separators, (c) arbitrary text over 'bytes=0123456789-, x' plus non-ASCII digits, (d) numbers "
